@@ -1,17 +1,750 @@
-//! module `font` — streams `font.*` (not built yet).
+//! module `font` (serves C14) — text drawn with a `MonoTextStyle` places, for the i-th character, the
+//! glyph the font's mapping designates in the cell at x offset i * (character width + spacing).
+//!
+//! Streams (op lines; every result line is compared with the Lean model `EG.Model.Font`):
+//!   font.index  <mid> <cp>                 -> `Mapping::iter().nth(mid).glyph_mapping().index(cp)`
+//!   font.indexs <repl> <data cps> <cps>    -> n=<chars().count()> idx=<index(cp) per cp> of
+//!                                             `StrGlyphMapping::new(data, repl)` (any mapping string)
+//!   font.info   <fid>                      -> imgW imgH cw ch spacing baseline ulOff ulH stOff stH of the
+//!                                             real constant `FONTS[fid]` (ties the translated table)
+//!   font.glyph  <fontspec> <cps> <atlas>   -> per cp `idx:ax,ay,aw,ah:bits`
+//!        idx  = `font.glyph_mapping.index(cp)` (real)
+//!        area = cell of that index: `(idx % gpr * cw, idx / gpr * ch, cw, ch)`, `gpr = imgW / cw`
+//!               (`MonoFont::glyph` is `pub(crate)`; the area is the oracle's computation and the oracle
+//!               checks that what the real code draws is exactly `font.image.pixel()` over that area)
+//!        bits = what drawing the single character with text+background colour hands to the target's
+//!               `fill_contiguous` (first w*h colours), `-` if nothing is drawn
+//!   font.draw   <fontspec> <via> <bl> <tc> <bg> <ul> <st> <x> <y> <cps> <atlas>
+//!                                          -> next=<x,y> r1=<pixel map> r2=same|<pixel map>
+//!        via: `s` = `TextRenderer::draw_string`, `t` = `Text::with_baseline(..).draw()`,
+//!             `w<width>` = `TextRenderer::draw_whitespace`
+//!        bl: 0 Top, 1 Bottom, 2 Middle, 3 Alphabetic; tc/bg: `-` or raw Rgb565 value;
+//!        ul/st: `n` None, `t` TextColor, else custom raw colour; r1/r2: maps on the draw_iter-only / native target
+//!   fontspec: `b:<fid>` (built-in, index into the generated `FONTS` table = Lean `fontTable`) or
+//!             `c:<imgW>:<imgH>:<cw>:<ch>:<sp>:<bl>:<ulOff>:<ulH>:<stOff>:<stH>:<repl>:<mapping data cps>`
+//!   atlas: all `imgW*imgH` pixels of `font.image`, row-major, 4 per hex digit (msb first, zero padded).
+//!          For built-in fonts the harness reads them with `font.image.pixel()`; for custom fonts the op
+//!          line is the source and the harness builds the `ImageRaw` from it. The model receives the atlas
+//!          content this way (its theorems take the atlas as a parameter) and selects the cell itself.
+//!
+//! Oracle (the property text as predicates on the real results; Lean statements mirrored:
+//!   `index_spec`, `builtin_mappings_nodup`, `builtin_cells_inside`, `glyph_cell_pixels`,
+//!   `line_elements_pos`, `decorations_cover`):
+//!   * index(c) = position of c in `chars()` if mapped, else the replacement index; mapped characters of a
+//!     built-in mapping have pairwise different indices; every cell of a built-in font (all mapped indices
+//!     and the replacement) lies inside the font image, glyph count <= glyphs_per_row * rows;
+//!   * the pixel map of a drawn string is exactly: for the i-th character the designated cell (read with
+//!     `font.image.pixel()`) at x + i*(cw+sp): on -> text colour, off -> background colour, spacing columns ->
+//!     background colour, absent colours leave pixels untouched; then strikethrough and underline
+//!     rectangles over the full text width at the font's offsets; nothing else is touched.
 use crate::common::*;
+use embedded_graphics::{
+    image::{GetPixel, ImageRaw},
+    mono_font::{
+        mapping::{GlyphMapping, Mapping, StrGlyphMapping},
+        DecorationDimensions, MonoFont, MonoTextStyle, MonoTextStyleBuilder,
+    },
+    pixelcolor::{BinaryColor, Rgb565},
+    prelude::*,
+    text::{renderer::TextRenderer, Baseline, DecorationColor, Text},
+};
+use std::cell::RefCell;
+use std::collections::HashMap;
+use std::rc::Rc;
+
+#[path = "font_table.rs"]
+mod font_table;
+use font_table::FONTS;
 
 pub struct M;
+
+const UNMAPPED: [u32; 12] = [0, 1, 0x0a, 0x0d, 0x1f, 0x80, 0x9f, 0xd7ff, 0xe000, 0xfffd, 0x1f600, 0x10ffff];
+
+thread_local! {
+    static ATLAS: RefCell<HashMap<usize, Rc<(Vec<bool>, String)>>> = RefCell::new(HashMap::new());
+    static MAPCHARS: RefCell<HashMap<usize, Rc<Vec<char>>>> = RefCell::new(HashMap::new());
+}
+
+fn hex_of(bits: &[bool]) -> String {
+    let mut s = String::with_capacity(bits.len() / 4 + 1);
+    for ch in bits.chunks(4) {
+        let mut v = 0u32;
+        for k in 0..4 {
+            v = v * 2 + if k < ch.len() && ch[k] { 1 } else { 0 };
+        }
+        s.push(char::from_digit(v, 16).unwrap());
+    }
+    if s.is_empty() {
+        s.push('-');
+    }
+    s
+}
+fn bits_of_hex(s: &str, n: usize) -> Vec<bool> {
+    let mut v = Vec::with_capacity(n + 4);
+    if s != "-" {
+        for c in s.chars() {
+            let d = c.to_digit(16).expect("bad hex");
+            for k in (0..4).rev() {
+                v.push((d >> k) & 1 == 1);
+            }
+        }
+    }
+    v.resize(n, false);
+    v
+}
+
+/// all pixels of the font image, read through the public `GetPixel` accessor
+fn read_atlas(font: &MonoFont) -> Vec<bool> {
+    let sz = font.image.size();
+    let mut v = Vec::with_capacity((sz.width * sz.height) as usize);
+    for y in 0..sz.height as i32 {
+        for x in 0..sz.width as i32 {
+            v.push(font.image.pixel(Point::new(x, y)) == Some(BinaryColor::On));
+        }
+    }
+    v
+}
+fn builtin_atlas(fid: usize) -> Rc<(Vec<bool>, String)> {
+    ATLAS.with(|a| {
+        a.borrow_mut()
+            .entry(fid)
+            .or_insert_with(|| {
+                let bits = read_atlas(FONTS[fid].3);
+                let hex = hex_of(&bits);
+                Rc::new((bits, hex))
+            })
+            .clone()
+    })
+}
+fn mapping_of(mid: usize) -> &'static StrGlyphMapping<'static> {
+    Mapping::iter().nth(mid).expect("mapping id").glyph_mapping()
+}
+fn mapping_chars(mid: usize) -> Rc<Vec<char>> {
+    MAPCHARS.with(|m| m.borrow_mut().entry(mid).or_insert_with(|| Rc::new(mapping_of(mid).chars().collect())).clone())
+}
+
+fn char_of(cp: u32) -> char {
+    char::from_u32(cp).expect("op carries a non-scalar code point")
+}
+
+/// A font the ops can name: the real `MonoFont`, the characters its mapping lists (in index order) and the
+/// index the property's "replacement glyph" has.
+struct FontCase<'a> {
+    font: &'a MonoFont<'a>,
+    chars: Rc<Vec<char>>,
+    replacement: usize,
+    builtin: bool,
+}
+
+/// Runs `f` with the font a fontspec token describes.
+fn with_font<R>(spec: &str, atlas_tok: &str, f: impl FnOnce(&FontCase, &[bool]) -> R) -> Result<R, String> {
+    let fs: Vec<&str> = spec.split(':').collect();
+    match fs[0] {
+        "b" => {
+            let fid: usize = fs[1].parse().expect("fid");
+            if fid >= FONTS.len() {
+                return Err("nofont".into());
+            }
+            let at = builtin_atlas(fid);
+            if at.1 != atlas_tok {
+                return Err("stale-atlas".into());
+            }
+            let mid = FONTS[fid].2;
+            let chars = mapping_chars(mid);
+            // the replacement glyph of the built-in mappings is the question mark
+            let replacement = chars.iter().position(|c| *c == '?').expect("built-in mapping without '?'");
+            Ok(f(&FontCase { font: FONTS[fid].3, chars, replacement, builtin: true }, &at.0))
+        }
+        "c" => {
+            let n = |i: usize| -> u32 { fs[i].parse().expect("custom font field") };
+            let (iw, ih, cw, ch, sp, bl, uo, uh, so, sh, repl) = (n(1), n(2), n(3), n(4), n(5), n(6), n(7), n(8), n(9), n(10), n(11));
+            let data_s: String = if fs[12] == "-" { String::new() } else { fs[12].split(',').map(|t| char_of(t.parse().expect("cp"))).collect() };
+            let bits = bits_of_hex(atlas_tok, (iw * ih) as usize);
+            let bpr = ((iw + 7) / 8) as usize;
+            let mut bytes = vec![0u8; bpr * ih as usize];
+            for y in 0..ih as usize {
+                for x in 0..iw as usize {
+                    if bits[y * iw as usize + x] {
+                        bytes[y * bpr + x / 8] |= 0x80 >> (x % 8);
+                    }
+                }
+            }
+            let image = ImageRaw::<BinaryColor>::new(&bytes, Size::new(iw, ih)).map_err(|_| "badimage".to_string())?;
+            let mapping = StrGlyphMapping::new(&data_s, repl as usize);
+            let font = MonoFont {
+                image,
+                character_size: Size::new(cw, ch),
+                character_spacing: sp,
+                baseline: bl,
+                strikethrough: DecorationDimensions::new(so, sh),
+                underline: DecorationDimensions::new(uo, uh),
+                glyph_mapping: &mapping,
+            };
+            let chars: Vec<char> = mapping.chars().collect();
+            Ok(f(&FontCase { font: &font, chars: Rc::new(chars), replacement: repl as usize, builtin: false }, &bits))
+        }
+        _ => Err("nofont".into()),
+    }
+}
+
+/// the glyph index the property designates for `c`: its position among the mapped characters, else the replacement
+fn designated(fc: &FontCase, c: char) -> usize {
+    fc.chars.iter().position(|v| *v == c).unwrap_or(fc.replacement)
+}
+/// cell of glyph `idx` in the atlas: (x, y, w, h) — the oracle's own computation
+fn cell_of(font: &MonoFont, idx: usize) -> (i64, i64, u32, u32) {
+    let cw = font.character_size.width;
+    let ch = font.character_size.height;
+    let iw = font.image.size().width;
+    if cw == 0 || iw < cw {
+        return (0, 0, 0, 0);
+    }
+    let gpr = (iw / cw) as i64;
+    let i = idx as i64;
+    ((i % gpr) * cw as i64, (i / gpr) * ch as i64, cw, ch)
+}
+fn cell_inside(font: &MonoFont, cell: (i64, i64, u32, u32)) -> bool {
+    let sz = font.image.size();
+    cell.2 > 0 && cell.3 > 0 && cell.0 + cell.2 as i64 <= sz.width as i64 && cell.1 + cell.3 as i64 <= sz.height as i64
+}
+
+fn opt_col(s: &str) -> Option<Rgb565> {
+    if s == "-" {
+        None
+    } else {
+        Some(Rgb565::from_num(s.parse().expect("colour")))
+    }
+}
+fn deco(s: &str) -> DecorationColor<Rgb565> {
+    match s {
+        "n" => DecorationColor::None,
+        "t" => DecorationColor::TextColor,
+        v => DecorationColor::Custom(Rgb565::from_num(v.parse().expect("colour"))),
+    }
+}
+fn baseline_of(i: u32) -> Baseline {
+    match i {
+        0 => Baseline::Top,
+        1 => Baseline::Bottom,
+        2 => Baseline::Middle,
+        _ => Baseline::Alphabetic,
+    }
+}
+fn baseline_offset(font: &MonoFont, i: u32) -> i32 {
+    let h = font.character_size.height;
+    match i {
+        0 => 0,
+        1 => h.saturating_sub(1) as i32,
+        2 => (h.saturating_sub(1) / 2) as i32,
+        _ => font.baseline as i32,
+    }
+}
+
+fn style_of<'a>(font: &'a MonoFont<'a>, tc: &str, bg: &str, ul: &str, st: &str) -> MonoTextStyle<'a, Rgb565> {
+    let mut s: MonoTextStyle<'a, Rgb565> = MonoTextStyleBuilder::new().font(font).build();
+    s.text_color = opt_col(tc);
+    s.background_color = opt_col(bg);
+    s.underline_color = deco(ul);
+    s.strikethrough_color = deco(st);
+    s
+}
+
+fn draw_via<D: DrawTarget<Color = Rgb565, Error = TErr>>(
+    style: &MonoTextStyle<Rgb565>, via: &str, bl: u32, pos: Point, text: &str, target: &mut D,
+) -> Point {
+    let r = if via == "s" {
+        style.draw_string(text, pos, baseline_of(bl), target)
+    } else if via == "t" {
+        Text::with_baseline(text, pos, *style, baseline_of(bl)).draw(target)
+    } else {
+        let w: u32 = via[1..].parse().expect("whitespace width");
+        style.draw_whitespace(w, pos, baseline_of(bl), target)
+    };
+    r.expect("recording target does not fail")
+}
+
+fn fill_rect(m: &mut PMap, x: i64, y: i64, w: i64, h: i64, c: u32) {
+    for yy in y..y + h {
+        for xx in x..x + w {
+            m.insert((yy as i32, xx as i32), c);
+        }
+    }
+}
+
+fn quick_fonts(tier: Tier, rng: &mut Rng) -> Vec<usize> {
+    if tier == Tier::Thorough {
+        return (0..FONTS.len()).collect();
+    }
+    // 24 fonts: one per charset (size position rotating) plus the three fonts whose underline lies below the
+    // character cell and seeded random ones
+    let mut v: Vec<usize> = Vec::new();
+    let mut start = 0;
+    let mut k = 0;
+    while start < FONTS.len() {
+        let m = FONTS[start].0;
+        let cnt = FONTS[start..].iter().take_while(|f| f.0 == m).count();
+        v.push(start + (k * 5) % cnt);
+        k += 1;
+        start += cnt;
+    }
+    for name in ["FONT_10X20", "FONT_9X15", "FONT_9X18_BOLD", "FONT_4X6"] {
+        let cands: Vec<usize> = (0..FONTS.len()).filter(|i| FONTS[*i].1 == name).collect();
+        v.push(*rng.pick(&cands));
+    }
+    while v.len() < 24 {
+        let i = rng.below(FONTS.len() as u64) as usize;
+        if !v.contains(&i) {
+            v.push(i);
+        }
+    }
+    v.sort();
+    v.dedup();
+    v
+}
+
+/// custom fonts: (fontspec, atlas hex, characters worth drawing)
+fn custom_fonts(rng: &mut Rng) -> Vec<(String, String, Vec<u32>)> {
+    let mut out = Vec::new();
+    // mapping strings: (data, replacement)
+    let maps: Vec<(Vec<u32>, u32)> = vec![
+        (vec![0, 0x61, 0x7a, 0, 0x41, 0x43, 0x30, 0x31, 0x39], 2),
+        (vec![0x78, 0x79, 0x7a, 0x20, 0, 0x30, 0x39], 3),
+        (vec![0, 0x20, 0x7f], 31),
+        (vec![0, 0xe9, 0xf2, 0x1f600, 0x3b1], 0),
+    ];
+    for (mi, (data, repl)) in maps.iter().enumerate() {
+        let s: String = data.iter().map(|c| char_of(*c)).collect();
+        let count = StrGlyphMapping::new(&s, 0).chars().count() as u32;
+        for (gi, gpr) in [1u32, 7, 16].iter().enumerate() {
+            for sp in 1..=3u32 {
+                let (cw, ch) = [(5u32, 7u32), (3, 4), (8, 8), (1, 1), (6, 3)][(mi + gi + sp as usize) % 5];
+                // image width: not necessarily a multiple of the character width or of 8
+                let slack = [0u32, 1, cw.saturating_sub(1)][(mi + sp as usize) % 3];
+                let iw = gpr * cw + slack;
+                let rows = (count.max(*repl + 1) + gpr - 1) / gpr;
+                let ih = rows * ch + (sp % 2);
+                let bits: Vec<bool> = (0..iw * ih).map(|_| rng.chance(1, 2)).collect();
+                let spec = format!(
+                    "c:{}:{}:{}:{}:{}:{}:{}:{}:{}:{}:{}:{}",
+                    iw, ih, cw, ch, sp, ch.saturating_sub(2), ch + 1, 1 + sp % 2, ch / 2, 1, repl, fmt_list(data.iter())
+                );
+                let mut chars: Vec<u32> = StrGlyphMapping::new(&s, 0).chars().map(|c| c as u32).collect();
+                chars.extend_from_slice(&[0x0a, 0x7e, 0x1f601]);
+                out.push((spec, hex_of(&bits), chars));
+            }
+        }
+    }
+    // degenerate fonts: zero character width, image narrower than a character, glyph rows missing
+    // (replacement index and late glyphs outside the atlas), zero character height, spacing 0
+    let data = vec![0u32, 0x61, 0x6a];
+    for (iw, ih, cw, ch, sp, repl) in [(8u32, 8u32, 0u32, 4u32, 1u32, 0u32), (3, 8, 4, 4, 1, 0), (8, 4, 4, 4, 2, 9), (8, 8, 4, 0, 1, 0), (12, 12, 4, 4, 0, 1)] {
+        let bits: Vec<bool> = (0..iw * ih).map(|_| rng.chance(1, 2)).collect();
+        let spec = format!("c:{}:{}:{}:{}:{}:{}:{}:{}:{}:{}:{}:{}", iw, ih, cw, ch, sp, 2, ch + 1, 1, ch / 2, 1, repl, fmt_list(data.iter()));
+        out.push((spec, hex_of(&bits), vec![0x61, 0x62, 0x63, 0x64, 0x6a, 0x7a]));
+    }
+    out
+}
+
+const COLOUR_OPTS: [(&str, &str); 4] = [("65535", "-"), ("-", "31"), ("2016", "63488"), ("-", "-")];
+const DECOS: [&str; 3] = ["n", "t", "1365"];
 
 impl Module for M {
     fn name(&self) -> &'static str {
         "font"
     }
     fn rule(&self) -> &'static str {
-        "not built yet"
+        "ops: every mapped character of all 14 built-in mappings + 12 unmapped probes (NUL, control, C1, surrogate \
+         neighbours, U+FFFD, non-BMP) through `index`; hand-written and seeded random mapping strings (ranges, \
+         incomplete/reversed ranges, duplicates, surrogate gap); constants of all 292 fonts; per selected font \
+         (quick: 24 incl. one per charset; thorough: all 292) every mapped character + the unmapped probes as \
+         single glyphs and as drawn strings of 16 characters x 4 colour options (text / background / both / \
+         none) x underline, strikethrough in {None, TextColor, Custom} x 4 baselines x draw_string / Text::draw, \
+         positions in +-40; custom fonts with spacing 1..=3 over synthetic atlases of 1, 7 and 16 glyphs per row \
+         (image width not a multiple of the character width) plus degenerate fonts. A draw/glyph op is \
+         non-trivial when at least one pixel is written; distinct = distinct op text."
     }
-    fn generate(&self, _pid: &str, _tier: Tier, _rng: &mut Rng, _emit: &mut dyn FnMut(String)) {}
-    fn execute(&self, op: &str, _ctx: &mut Ctx) -> String {
-        panic!("unknown op {}", op)
+
+    fn generate(&self, pid: &str, tier: Tier, rng: &mut Rng, emit: &mut dyn FnMut(String)) {
+        if pid != "C14" {
+            return;
+        }
+        // ---- index: all mapped characters of all mappings + unmapped probes ---------------------------
+        let nmap = Mapping::iter().count();
+        for mid in 0..nmap {
+            for c in mapping_chars(mid).iter() {
+                emit(format!("font.index {} {}", mid, *c as u32));
+            }
+            for cp in UNMAPPED {
+                emit(format!("font.index {} {}", mid, cp));
+            }
+        }
+        // ---- arbitrary mapping strings ------------------------------------------------------------------
+        let probes: Vec<u32> = vec![0, 0x20, 0x30, 0x39, 0x41, 0x61, 0x62, 0x63, 0x64, 0x65, 0x7a, 0xd7ff, 0xe000, 0xe001, 0x1f600];
+        let hand: Vec<(Vec<u32>, u32)> = vec![
+            (vec![], 0),
+            (vec![0x61], 0),
+            (vec![0x61, 0x62, 0x63], 1),
+            (vec![0, 0x61, 0x63], 2),
+            (vec![0, 0x61], 0),
+            (vec![0], 5),
+            (vec![0x61, 0, 0x62], 4),
+            (vec![0x61, 0, 0x62, 0x64, 0x65], 3),
+            (vec![0, 0x63, 0x61, 0x64], 7),          // reversed range: empty
+            (vec![0, 0x61, 0x61], 7),                // one-character range
+            (vec![0x61, 0x61, 0x62], 9),             // duplicate: first position wins
+            (vec![0, 0x61, 0x63, 0, 0x62, 0x65], 9), // overlapping ranges
+            (vec![0, 0, 0x20], 1),                   // range starting at NUL
+            (vec![0, 0x41, 0],  1),                  // range ending at NUL (reversed)
+            (vec![0, 0xd7fe, 0xe001], 1),            // range across the surrogate gap
+            (vec![0, 0x1f600, 0x1f603, 0x7a], 0),
+            (vec![0x7a, 0, 0x30, 0x39, 0, 0x41], 2), // incomplete range at the end
+        ];
+        for (data, repl) in &hand {
+            emit(format!("font.indexs {} {} {}", repl, fmt_list(data.iter()), fmt_list(probes.iter())));
+        }
+        let nrand = if tier == Tier::Quick { 300 } else { 5000 };
+        for _ in 0..nrand {
+            let len = rng.below(9) as usize;
+            let alphabet = [0u32, 0, 0x30, 0x31, 0x39, 0x41, 0x61, 0x62, 0x63, 0x64, 0x65, 0x7a, 0xd7ff, 0xe000, 0xe001, 0x1f600];
+            let data: Vec<u32> = (0..len).map(|_| *rng.pick(&alphabet)).collect();
+            emit(format!("font.indexs {} {} {}", rng.below(12), fmt_list(data.iter()), fmt_list(probes.iter())));
+        }
+        // ---- constants of every built-in font -----------------------------------------------------------
+        for fid in 0..FONTS.len() {
+            emit(format!("font.info {}", fid));
+        }
+        // ---- glyphs and drawn strings of the selected built-in fonts --------------------------------------
+        let fonts = quick_fonts(tier, rng);
+        let mut combo = 0usize;
+        for fid in fonts {
+            let at = builtin_atlas(fid);
+            let mut cps: Vec<u32> = mapping_chars(FONTS[fid].2).iter().map(|c| *c as u32).collect();
+            cps.extend_from_slice(&UNMAPPED);
+            for chunk in cps.chunks(32) {
+                emit(format!("font.glyph b:{} {} {}", fid, fmt_list(chunk.iter()), at.1));
+            }
+            for chunk in cps.chunks(16) {
+                for (tc, bg) in COLOUR_OPTS {
+                    combo += 1;
+                    let ul = DECOS[combo % 3];
+                    let st = DECOS[(combo / 3) % 3];
+                    // `Text` splits at '\n' and strips '\r': those strings go through draw_string only
+                    let plain = !chunk.iter().any(|c| *c == 0x0a || *c == 0x0d);
+                    let via = if plain && combo % 4 == 1 { "t" } else { "s" };
+                    emit(format!(
+                        "font.draw b:{} {} {} {} {} {} {} {} {} {} {}",
+                        fid, via, rng.below(4), tc, bg, ul, st, rng.range(-40, 40), rng.range(-40, 40), fmt_list(chunk.iter()), at.1
+                    ));
+                }
+            }
+            // empty string, single characters, whitespace
+            emit(format!("font.draw b:{} s 0 65535 31 t t 3 4 - {}", fid, at.1));
+            emit(format!("font.draw b:{} t 3 65535 31 t 7 -3 4 65 {}", fid, at.1));
+            emit(format!("font.draw b:{} w0 1 65535 31 t t 3 4 - {}", fid, at.1));
+            emit(format!("font.draw b:{} w{} {} - 31 2 t {} 4 - {}", fid, 1 + rng.below(30), rng.below(4), rng.range(-9, 9), at.1));
+            emit(format!("font.draw b:{} w{} {} 7 - t n {} 4 - {}", fid, 1 + rng.below(30), rng.below(4), rng.range(-9, 9), at.1));
+        }
+        // ---- custom fonts ---------------------------------------------------------------------------------
+        for (spec, hex, chars) in custom_fonts(rng) {
+            for chunk in chars.chunks(32) {
+                emit(format!("font.glyph {} {} {}", spec, fmt_list(chunk.iter()), hex));
+            }
+            for chunk in chars.chunks(12) {
+                for (tc, bg) in COLOUR_OPTS {
+                    combo += 1;
+                    let ul = DECOS[combo % 3];
+                    let st = DECOS[(combo / 3) % 3];
+                    let plain = !chunk.iter().any(|c| *c == 0x0a || *c == 0x0d);
+                    let via = if plain && combo % 4 == 1 { "t" } else { "s" };
+                    emit(format!(
+                        "font.draw {} {} {} {} {} {} {} {} {} {} {}",
+                        spec, via, rng.below(4), tc, bg, ul, st, rng.range(-40, 40), rng.range(-40, 40), fmt_list(chunk.iter()), hex
+                    ));
+                }
+            }
+            emit(format!("font.draw {} w{} {} 9 31 t 5 {} 4 - {}", spec, rng.below(20), rng.below(4), rng.range(-9, 9), hex));
+        }
+    }
+
+    fn execute(&self, op: &str, ctx: &mut Ctx) -> String {
+        let mut t = Toks::new(op);
+        match t.str() {
+            "font.index" => {
+                let mid = t.usize();
+                let cp = t.u32();
+                let c = char_of(cp);
+                let idx = mapping_of(mid).index(c);
+                let chars = mapping_chars(mid);
+                ctx.count("index");
+                match chars.iter().position(|v| *v == c) {
+                    Some(p) => {
+                        ctx.count("index:mapped");
+                        ctx.nontrivial(op);
+                        ctx.expect(idx == p, "C14:index-not-position-of-mapped-char", || format!("index {} but position {}", idx, p));
+                        ctx.expect(chars.iter().filter(|v| **v == c).count() == 1, "C14:mapped-char-listed-twice", || format!("U+{:04X}", cp));
+                        ctx.expect(mapping_of(mid).contains(c), "C14:contains-false-for-mapped-char", || format!("U+{:04X}", cp));
+                    }
+                    None => {
+                        ctx.count("index:unmapped");
+                        let q = chars.iter().position(|v| *v == '?');
+                        ctx.expect(Some(idx) == q, "C14:unmapped-char-not-replacement-glyph", || format!("index {} but '?' is at {:?}", idx, q));
+                    }
+                }
+                format!("{}", idx)
+            }
+            "font.indexs" => {
+                let repl = t.usize();
+                let data: String = t.u32_list().into_iter().map(char_of).collect();
+                let cps = t.u32_list();
+                let m = StrGlyphMapping::new(&data, repl);
+                let chars: Vec<char> = m.chars().collect();
+                ctx.count("indexs");
+                if !chars.is_empty() {
+                    ctx.nontrivial(op);
+                }
+                let mut idx = Vec::new();
+                for cp in cps {
+                    let c = char_of(cp);
+                    let i = m.index(c);
+                    let want = chars.iter().position(|v| *v == c).unwrap_or(repl);
+                    ctx.expect(i == want, "C14:index-not-position-of-mapped-char", || format!("U+{:04X}: index {} expected {}", cp, i, want));
+                    idx.push(i);
+                }
+                format!("n={} idx={}", chars.len(), fmt_list(idx.iter()))
+            }
+            "font.info" => {
+                let fid = t.usize();
+                if fid >= FONTS.len() {
+                    return "nofont".into();
+                }
+                let f = FONTS[fid].3;
+                let chars = mapping_chars(FONTS[fid].2);
+                ctx.count("info");
+                ctx.nontrivial(op);
+                let sz = f.image.size();
+                let (cw, ch) = (f.character_size.width, f.character_size.height);
+                // every mapped character has its own index, whose cell lies completely inside the font image
+                let mut seen = std::collections::HashSet::new();
+                let mut own = true;
+                let mut inside = true;
+                for c in chars.iter() {
+                    let i = f.glyph_mapping.index(*c);
+                    own &= seen.insert(i);
+                    inside &= cell_inside(f, cell_of(f, i));
+                }
+                ctx.expect(own, "C14:mapped-chars-share-an-index", || format!("{}::{}", FONTS[fid].0, FONTS[fid].1));
+                ctx.expect(inside, "C14:glyph-cell-outside-font-image", || format!("{}::{}", FONTS[fid].0, FONTS[fid].1));
+                let r = f.glyph_mapping.index('\u{1}');
+                ctx.expect(cell_inside(f, cell_of(f, r)), "C14:replacement-cell-outside-font-image", || format!("{}::{} index {}", FONTS[fid].0, FONTS[fid].1, r));
+                ctx.expect(
+                    cw > 0 && ch > 0 && chars.len() as u32 <= (sz.width / cw) * (sz.height / ch),
+                    "C14:atlas-has-fewer-cells-than-glyphs",
+                    || format!("{}::{}", FONTS[fid].0, FONTS[fid].1),
+                );
+                format!(
+                    "{} {} {} {} {} {} {} {} {} {}",
+                    sz.width, sz.height, cw, ch, f.character_spacing, f.baseline, f.underline.offset, f.underline.height,
+                    f.strikethrough.offset, f.strikethrough.height
+                )
+            }
+            "font.glyph" => {
+                let spec = t.str();
+                let cps = t.u32_list();
+                let atlas_tok = t.str();
+                let r = with_font(spec, atlas_tok, |fc, _bits| {
+                    let font = fc.font;
+                    let mut items: Vec<String> = Vec::new();
+                    for cp in &cps {
+                        let c = char_of(*cp);
+                        let idx = font.glyph_mapping.index(c);
+                        let want = designated(fc, c);
+                        ctx.count(if fc.chars.contains(&c) { "glyph:mapped" } else { "glyph:unmapped" });
+                        ctx.expect(idx == want, "C14:wrong-glyph-designated", || format!("U+{:04X}: index {} expected {}", cp, idx, want));
+                        let cell = cell_of(font, idx);
+                        let inside = cell_inside(font, cell);
+                        if fc.builtin {
+                            ctx.expect(inside, "C14:glyph-cell-outside-font-image", || format!("U+{:04X} index {}", cp, idx));
+                        } else if !inside {
+                            ctx.count("glyph:custom-cell-outside");
+                        }
+                        // what the real code hands to fill_contiguous when the character is drawn with both colours
+                        let style = style_of(font, "1", "0", "n", "n");
+                        let mut r2 = R2::<Rgb565>::unbounded();
+                        let s: String = c.to_string();
+                        style.draw_string(&s, Point::zero(), Baseline::Top, &mut r2).expect("no fault");
+                        let n = (cell.2 * cell.3) as usize;
+                        let drawn: Option<Vec<bool>> = match r2.rec.log.as_slice() {
+                            [] => None,
+                            [Call::FillContiguous(a, cs)] => {
+                                ctx.expect(
+                                    *a == embedded_graphics::primitives::Rectangle::new(Point::zero(), Size::new(cell.2, cell.3)) && cs.len() >= n,
+                                    "C14:glyph-drawn-into-wrong-area",
+                                    || format!("U+{:04X}: area {} with {} colours", cp, fmt_rect(a), cs.len()),
+                                );
+                                Some(cs.iter().take(n).map(|v| *v == 1).collect())
+                            }
+                            other => {
+                                ctx.fail("C14:glyph-drawn-by-unexpected-calls", format!("U+{:04X}: {} calls", cp, other.len()));
+                                None
+                            }
+                        };
+                        // oracle: exactly the atlas pixels of the designated cell, or nothing if there is no such cell
+                        let expect: Option<Vec<bool>> = if inside {
+                            let mut v = Vec::with_capacity(n);
+                            for dy in 0..cell.3 as i64 {
+                                for dx in 0..cell.2 as i64 {
+                                    v.push(font.image.pixel(Point::new((cell.0 + dx) as i32, (cell.1 + dy) as i32)) == Some(BinaryColor::On));
+                                }
+                            }
+                            Some(v)
+                        } else {
+                            None
+                        };
+                        ctx.expect(drawn == expect, "C14:glyph-bitmap-not-designated-cell", || format!("U+{:04X} index {} cell {:?}", cp, idx, cell));
+                        if drawn.is_some() {
+                            ctx.nontrivial(op);
+                        }
+                        let bits = match &drawn {
+                            Some(v) => v.iter().map(|b| if *b { '1' } else { '0' }).collect::<String>(),
+                            None => "-".to_string(),
+                        };
+                        items.push(format!("{}:{},{},{},{}:{}", idx, cell.0, cell.1, cell.2, cell.3, bits));
+                    }
+                    if items.is_empty() {
+                        "-".to_string()
+                    } else {
+                        items.join(" ")
+                    }
+                });
+                match r {
+                    Ok(s) => s,
+                    Err(e) => e,
+                }
+            }
+            "font.draw" => {
+                let spec = t.str();
+                let via = t.str();
+                let bl = t.u32();
+                let (tc, bg, ul, st) = (t.str(), t.str(), t.str(), t.str());
+                let pos = t.point();
+                let cps = t.u32_list();
+                let atlas_tok = t.str();
+                let r = with_font(spec, atlas_tok, |fc, _bits| {
+                    let font = fc.font;
+                    let text: String = cps.iter().map(|c| char_of(*c)).collect();
+                    let style = style_of(font, tc, bg, ul, st);
+                    let mut r1 = R1::<Rgb565>::unbounded();
+                    let mut r2 = R2::<Rgb565>::unbounded();
+                    let n1 = draw_via(&style, via, bl, pos, &text, &mut r1);
+                    let n2 = draw_via(&style, via, bl, pos, &text, &mut r2);
+                    ctx.count(&format!("draw:via-{}", &via[..1]));
+                    ctx.count(&format!("draw:text-{}:bg-{}", if tc == "-" { "none" } else { "set" }, if bg == "-" { "none" } else { "set" }));
+                    let dk = |d: &str| if d == "n" || d == "t" { d.to_string() } else { "c".to_string() };
+                    ctx.count(&format!("draw:ul-{}:st-{}", dk(ul), dk(st)));
+                    ctx.count(if fc.builtin { "draw:builtin" } else { "draw:custom" });
+                    ctx.expect(n1 == n2, "C14:next-position-depends-on-target", || format!("{:?} vs {:?}", n1, n2));
+                    if !r1.rec.map.is_empty() {
+                        ctx.nontrivial(op);
+                    }
+
+                    // ---- oracle: the picture the property text describes -------------------------------------
+                    let (cw, ch) = (font.character_size.width as i64, font.character_size.height as i64);
+                    let sp = font.character_spacing as i64;
+                    let x0 = pos.x as i64;
+                    let y0 = pos.y as i64 - baseline_offset(font, bl) as i64;
+                    let tcn = opt_col(tc).map(|c| c.num());
+                    let bgn = opt_col(bg).map(|c| c.num());
+                    let mut want = PMap::new();
+                    let text_width: i64;
+                    if via.starts_with('w') {
+                        let w: i64 = via[1..].parse().unwrap();
+                        text_width = w;
+                        if let Some(b) = bgn {
+                            fill_rect(&mut want, x0, y0, w, ch, b);
+                        }
+                    } else {
+                        let n = cps.len() as i64;
+                        text_width = if n == 0 { 0 } else { n * cw + (n - 1) * sp };
+                        for (i, cp) in cps.iter().enumerate() {
+                            let cx = x0 + i as i64 * (cw + sp);
+                            let idx = designated(fc, char_of(*cp));
+                            let cell = cell_of(font, idx);
+                            if cell_inside(font, cell) {
+                                for dy in 0..ch {
+                                    for dx in 0..cw {
+                                        let on = font.image.pixel(Point::new((cell.0 + dx) as i32, (cell.1 + dy) as i32)) == Some(BinaryColor::On);
+                                        if let Some(c) = if on { tcn } else { bgn } {
+                                            want.insert(((y0 + dy) as i32, (cx + dx) as i32), c);
+                                        }
+                                    }
+                                }
+                            } else if fc.builtin {
+                                ctx.fail("C14:glyph-cell-outside-font-image", format!("U+{:04X} index {}", cp, idx));
+                            } else {
+                                ctx.count("draw:custom-cell-outside");
+                            }
+                            if (i as i64) < n - 1 {
+                                if let Some(b) = bgn {
+                                    fill_rect(&mut want, cx + cw, y0, sp, ch, b);
+                                }
+                            }
+                        }
+                    }
+                    // decorations: strikethrough, then underline, over the full text width at the font's offsets.
+                    // Observation (outside the property's quantifier, see DESIGN.md C15): with neither text nor
+                    // background colour the real code measures n*(cw+sp), i.e. the line extends over the trailing
+                    // spacing of a custom font.
+                    let mut deco_width = text_width;
+                    if !via.starts_with('w') && tcn.is_none() && bgn.is_none() && sp > 0 && !cps.is_empty() {
+                        deco_width += sp;
+                        ctx.count("draw:obs-transparent-text-decoration-spans-trailing-spacing");
+                    }
+                    if deco_width > 0 {
+                        let eff = |d: &str| -> Option<u32> {
+                            match d {
+                                "n" => None,
+                                "t" => tcn,
+                                v => Some(v.parse().unwrap()),
+                            }
+                        };
+                        if let Some(c) = eff(st) {
+                            fill_rect(&mut want, x0, y0 + font.strikethrough.offset as i64, deco_width, font.strikethrough.height as i64, c);
+                            ctx.count("draw:strikethrough-drawn");
+                        }
+                        if let Some(c) = eff(ul) {
+                            fill_rect(&mut want, x0, y0 + font.underline.offset as i64, deco_width, font.underline.height as i64, c);
+                            ctx.count("draw:underline-drawn");
+                        }
+                    }
+                    let classify = |got: &PMap| -> Option<(&'static str, String)> {
+                        if *got == want {
+                            return None;
+                        }
+                        let miss = want.iter().find(|(k, v)| got.get(k) != Some(v));
+                        let extra = got.iter().find(|(k, _)| !want.contains_key(k));
+                        if let Some((k, v)) = miss {
+                            Some(("C14:pixel-differs-from-designated-cell", format!("at ({},{}) expected {} got {:?}", k.1, k.0, v, got.get(k))))
+                        } else {
+                            let (k, v) = extra.unwrap();
+                            Some(("C14:pixel-outside-cells-and-decorations", format!("at ({},{}) colour {}", k.1, k.0, v)))
+                        }
+                    };
+                    for (name, got) in [("r1", &r1.rec.map), ("r2", &r2.rec.map)] {
+                        ctx.checked();
+                        if let Some((class, detail)) = classify(got) {
+                            ctx.fail(class, format!("{}: {}", name, detail));
+                        }
+                    }
+                    let m1 = r1.rec.fmt_map();
+                    let m2 = r2.rec.fmt_map();
+                    format!("next={} r1={} r2={}", fmt_pt(n1), m1, if m2 == m1 { "same".to_string() } else { m2 })
+                });
+                match r {
+                    Ok(s) => s,
+                    Err(e) => e,
+                }
+            }
+            _ => panic!("unknown op {}", op),
+        }
     }
 }
